@@ -27,10 +27,10 @@ Lemma C_comp f g : C f -> C g -> C (fun w => f (g w)).
 Proof. intros Hf Hg w. eapply cext_trans; [apply Hg|apply Hf]. Qed.
 Lemma C_fold {Y} (f : world -> Y -> world) l : (forall x, C (fun w => f w x)) -> C (fun w => fold_left f l w).
 Proof. intros H. induction l as [|x l IH]; intros w; cbn [fold_left]; [apply cext_refl|]. eapply cext_trans; [apply (H x w)|apply IH]. Qed.
-Lemma same_cext w w' : same w w' -> cext w w'.
+Lemma same_cext {b} w w' : sameb b w w' -> cext w w'.
 Proof. intros Hs. constructor; [apply (sm_now _ _ Hs)|apply (sm_cfg _ _ Hs)|rewrite (sm_tmr _ _ Hs); auto]. Qed.
-Lemma C_neutral f : neutral f -> C f.
-Proof. intros H w. apply same_cext, H. Qed.
+Lemma C_neutral {b} f : (forall w, sameb b w (f w)) -> C f.
+Proof. intros H w. eapply same_cext, H. Qed.
 
 (* ---- primitives *)
 Definition coll_ok (d : N) (h : handle) (w : world) : Prop :=
@@ -61,18 +61,18 @@ Lemma C_call_soon h : C (call_soon h). Proof. intros w. constructor; auto. Qed.
 Lemma C_store_stop st a k : C (store_stop st a k).
 Proof.
   intros w. unfold store_stop. destruct (aget key_eqb k _); [|apply C_put_store].
-  eapply cext_trans; [|apply C_neutral, n_store_callback]. eapply cext_trans; [apply C_put_store|apply C_cancel_opt].
+  eapply cext_trans; [|eapply C_neutral, n_store_callback]. eapply cext_trans; [apply C_put_store|apply C_cancel_opt].
 Qed.
 Lemma C_store_expired st a k : C (store_expired st a k).
 Proof.
   intros w. unfold store_expired. destruct (aget key_eqb k _); [|apply C_put_store].
-  eapply cext_trans; [apply C_put_store|apply C_neutral, n_store_callback].
+  eapply cext_trans; [apply C_put_store|eapply C_neutral, n_store_callback].
 Qed.
 Lemma C_store_stop_all_for_address st a : C (store_stop_all_for_address st a).
 Proof.
   intros w. unfold store_stop_all_for_address. eapply cext_trans; [apply C_put_store|].
   apply (C_fold (fun acc p => store_callback st (fst p) a (cancel_opt (snd p) acc))). intros p w0.
-  eapply cext_trans; [apply C_cancel_opt|apply C_neutral, n_store_callback].
+  eapply cext_trans; [apply C_cancel_opt|eapply C_neutral, n_store_callback].
 Qed.
 Lemma C_store_stop_all st : C (store_stop_all st).
 Proof.
@@ -92,10 +92,10 @@ Proof.
   - eapply cext_trans; [|apply C_refresh_tail]. eapply cext_trans; [apply C_put_store|apply C_cancel_opt].
   - destruct st as [|i], k as [s|sub]; try (eapply cext_trans; [apply C_put_store|apply C_refresh_tail]).
     + eapply cext_trans; [|apply C_refresh_tail]. eapply cext_trans; [apply C_put_store|].
-      apply C_neutral. apply n_notify_service. intros l. apply n_listener_offered.
+      eapply C_neutral. apply n_notify_service. intros l. apply n_listener_offered.
     + destruct (client_subscribed i sub a _) as [w' ok] eqn:Ec.
       match type of Ec with client_subscribed _ _ _ ?w0 = _ => pose proof (n_client_subscribed i sub a w0) as Hs; cbv beta in Hs; rewrite Ec in Hs; cbn [fst] in Hs end.
-      destruct ok; cbn [negb fst]; (eapply cext_trans; [apply C_put_store|]); [eapply cext_trans; [apply same_cext; exact Hs|apply C_refresh_tail]|apply same_cext; exact Hs].
+      destruct ok; cbn [negb fst]; (eapply cext_trans; [apply C_put_store|]); [eapply cext_trans; [eapply same_cext; exact Hs|apply C_refresh_tail]|eapply same_cext; exact Hs].
 Qed.
 
 (* ---- tasks, collectors *)
@@ -121,7 +121,7 @@ Proof. intros w. unfold sleep_done. destruct (get_task t w) as [tk|]; [|apply ce
 Lemma C_queue_send e d : C (queue_send e d).
 Proof.
   intros w0. unfold queue_send. apply (cext_trans _ (ghost (GQueue e d) w0)); [apply C_ghost|]. generalize (ghost (GQueue e d) w0). clear w0.
-  intros w. unfold queue_core. destruct (t_collect (cfg w) =? 0); [eapply cext_trans; [apply C_ghost|apply C_neutral, n_send_sd]|].
+  intros w. unfold queue_core. destruct (t_collect (cfg w) =? 0); [eapply cext_trans; [apply C_ghost|eapply C_neutral, n_send_sd]|].
   match goal with |- cext w (match ?o with Some _ => _ | None => _ end) => destruct o as [[c co]|] end; [apply C_set_collectors|].
   destruct (call_later (t_collect (cfg w)) (HCollector (next_id w)) w) as [tid w1] eqn:Ec.
   assert (w1 = snd (call_later (t_collect (cfg w)) (HCollector (next_id w)) w)) as -> by (rewrite Ec; reflexivity).
@@ -130,7 +130,7 @@ Qed.
 Lemma C_collector_timeout c : C (collector_timeout c).
 Proof.
   intros w. unfold collector_timeout. destruct (aget N.eqb c (collectors w)); [|apply cext_refl].
-  eapply cext_trans; [|apply C_neutral, n_send_sd]. eapply cext_trans; [apply C_ghost|apply C_set_collectors].
+  eapply cext_trans; [|eapply C_neutral, n_send_sd]. eapply cext_trans; [apply C_ghost|apply C_set_collectors].
 Qed.
 
 (* ---- composite functions *)
@@ -140,15 +140,15 @@ Lemma C_subscriber_start : C subscriber_start.
 Proof.
   intros w. unfold subscriber_start. destruct (sub_alive w); [apply cext_refl|].
   destruct (new_task TSub (set_sub_alive true w)) as [t w1] eqn:E0. pair_C (C_new_task TSub (set_sub_alive true w)) E0.
-  eapply cext_trans; [|apply C_neutral, n_set_sub_task]. eapply cext_trans; [apply C_neutral, n_set_sub_alive|exact K].
+  eapply cext_trans; [|eapply C_neutral, n_set_sub_task]. eapply cext_trans; [eapply C_neutral, n_set_sub_alive|exact K].
 Qed.
 Lemma C_subscriber_stop b : C (subscriber_stop b).
 Proof.
   intros w. unfold subscriber_stop. destruct (negb (sub_alive w)); [apply cext_refl|].
-  set (w1 := set_sub_alive false w). assert (H1 : cext w w1) by (apply C_neutral, n_set_sub_alive).
+  set (w1 := set_sub_alive false w). assert (H1 : cext w w1) by (eapply C_neutral, n_set_sub_alive).
   set (w2 := match sub_task w1 with Some t => set_sub_task None (cancel_task t w1) | None => w1 end).
   assert (H2 : cext w w2).
-  { unfold w2. destruct (sub_task w1); [|exact H1]. eapply cext_trans; [exact H1|]. eapply cext_trans; [apply C_cancel_task|apply C_neutral, n_set_sub_task]. }
+  { unfold w2. destruct (sub_task w1); [|exact H1]. eapply cext_trans; [exact H1|]. eapply cext_trans; [apply C_cancel_task|eapply C_neutral, n_set_sub_task]. }
   destruct b; [|exact H2]. eapply cext_trans; [exact H2|].
   apply (C_fold (fun acc p => call_soon (HSendStopSub (fst p) (snd p)) acc)). intros p. apply C_call_soon.
 Qed.
@@ -156,7 +156,7 @@ Lemma C_subscribe_round t : C (subscribe_round t).
 Proof.
   intros w. unfold subscribe_round. set (w1 := fold_left _ (group_entries (sub_entries w)) w).
   assert (H1 : cext w w1).
-  { unfold w1. apply (C_fold (fun acc p => send_subscribe (t_subscribe_ttl (cfg acc)) (fst p) (snd p) acc)). intros p w0. apply C_neutral, n_send_subscribe. }
+  { unfold w1. apply (C_fold (fun acc p => send_subscribe (t_subscribe_ttl (cfg acc)) (fst p) (snd p) acc)). intros p w0. eapply C_neutral, n_send_subscribe. }
   eapply cext_trans; [exact H1|]. destruct (t_refresh (cfg w1)); [apply C_task_sleep|apply C_finish_task].
 Qed.
 Lemma C_handle_offer e a : C (handle_offer e a).
@@ -167,23 +167,23 @@ Qed.
 Lemma C_discovery_start : C discovery_start.
 Proof.
   intros w. unfold discovery_start. match goal with |- cext w (if ?b then _ else _) => destruct b end; [apply cext_refl|].
-  destruct (new_task TFind w) as [t w1] eqn:E0. pair_C (C_new_task TFind w) E0. eapply cext_trans; [exact K|apply C_neutral, n_set_disc_task].
+  destruct (new_task TFind w) as [t w1] eqn:E0. pair_C (C_new_task TFind w) E0. eapply cext_trans; [exact K|eapply C_neutral, n_set_disc_task].
 Qed.
 Lemma C_discovery_stop : C discovery_stop.
-Proof. intros w. unfold discovery_stop. destruct (disc_task w); [|apply cext_refl]. eapply cext_trans; [apply C_cancel_task|apply C_neutral, n_set_disc_task]. Qed.
+Proof. intros w. unfold discovery_stop. destruct (disc_task w); [|apply cext_refl]. eapply cext_trans; [apply C_cancel_task|eapply C_neutral, n_set_disc_task]. Qed.
 Lemma C_inst_send_offer i d b : C (inst_send_offer i d b).
 Proof. intros w. unfold inst_send_offer. destruct (get_inst i w); [apply C_queue_send|apply cext_refl]. Qed.
 Lemma C_inst_start i : C (fun w => fst (inst_start i w)).
 Proof.
   intros w. unfold inst_start. destruct (get_inst i w) as [ins|]; [|apply cext_refl].
-  destruct (in_task ins); [cbn [fst]; apply C_neutral, n_emit; reflexivity|].
+  destruct (in_task ins); [cbn [fst]; eapply C_neutral, n_emit; reflexivity|].
   destruct (new_task (TOffer i) w) as [t w1] eqn:E0. cbn [fst]. pair_C (C_new_task (TOffer i) w) E0.
   eapply cext_trans; [exact K|apply C_put_inst].
 Qed.
 Lemma C_inst_stop i : C (fun w => fst (inst_stop i w)).
 Proof.
   intros w. unfold inst_stop. destruct (get_inst i w) as [ins|]; [|apply cext_refl].
-  destruct (in_task ins) as [t|]; [|cbn [fst]; apply C_neutral, n_emit; reflexivity]. cbn [fst].
+  destruct (in_task ins) as [t|]; [|cbn [fst]; eapply C_neutral, n_emit; reflexivity]. cbn [fst].
   eapply cext_trans; [|apply C_store_stop_all].
   set (w1 := put_inst i _ (cancel_task t w)). assert (H1 : cext w w1) by (eapply cext_trans; [apply C_cancel_task|apply C_put_inst]).
   destruct (t_cyclic (cfg w1) =? 0); [eapply cext_trans; [exact H1|apply C_inst_send_offer]|exact H1].
@@ -197,25 +197,25 @@ Lemma C_announcer_start : C announcer_start.
 Proof.
   intros w. unfold announcer_start. destruct (for_insts inst_start (announcing w) w) as [w1 ok] eqn:E0.
   pair_C (C_for_insts inst_start C_inst_start (announcing w) w) E0.
-  destruct ok; [eapply cext_trans; [exact K|apply C_neutral, n_set_ann_started]|exact K].
+  destruct ok; [eapply cext_trans; [exact K|eapply C_neutral, n_set_ann_started]|exact K].
 Qed.
 Lemma C_announcer_stop : C announcer_stop.
 Proof.
   intros w. unfold announcer_stop. destruct (negb (ann_started w)); [apply cext_refl|].
   destruct (for_insts inst_stop (announcing w) w) as [w1 ok] eqn:E0.
   pair_C (C_for_insts inst_stop C_inst_stop (announcing w) w) E0.
-  destruct ok; [eapply cext_trans; [exact K|apply C_neutral, n_set_ann_started]|exact K].
+  destruct ok; [eapply cext_trans; [exact K|eapply C_neutral, n_set_ann_started]|exact K].
 Qed.
 Lemma C_announce_service i : C (announce_service i).
 Proof.
-  intros w. unfold announce_service. destruct (ann_started w); [|apply C_neutral, n_set_announcing].
+  intros w. unfold announce_service. destruct (ann_started w); [|eapply C_neutral, n_set_announcing].
   destruct (inst_start i w) as [w1 ok] eqn:E0. pair_C (C_inst_start i w) E0.
-  destruct ok; [eapply cext_trans; [exact K|apply C_neutral, n_set_announcing]|exact K].
+  destruct ok; [eapply cext_trans; [exact K|eapply C_neutral, n_set_announcing]|exact K].
 Qed.
 Lemma C_stop_announce_service i b : C (stop_announce_service i b).
 Proof.
-  intros w. unfold stop_announce_service. destruct (remove_first N.eqb i (announcing w)); [|apply C_neutral, n_emit; reflexivity].
-  destruct (b && ann_started (set_announcing l w)); [eapply cext_trans; [apply C_neutral, n_set_announcing|apply C_inst_stop]|apply C_neutral, n_set_announcing].
+  intros w. unfold stop_announce_service. destruct (remove_first N.eqb i (announcing w)); [|eapply C_neutral, n_emit; reflexivity].
+  destruct (b && ann_started (set_announcing l w)); [eapply cext_trans; [eapply C_neutral, n_set_announcing|apply C_inst_stop]|eapply C_neutral, n_set_announcing].
 Qed.
 Lemma C_inst_handle_subscribe e a i : C (fun w => fst (inst_handle_subscribe e a i w)).
 Proof.
@@ -243,7 +243,7 @@ Proof.
   intros w. unfold announcer_handle_findservice. destruct (filter _ (announcing w)) as [|i0 l0]; [apply cext_refl|]. destruct mc.
   - destruct (draw (t_rr_min (cfg w)) (t_rr_max (cfg w)) w) as [d w1] eqn:Ed.
     pose proof (n_draw (t_rr_min (cfg w)) (t_rr_max (cfg w)) w) as Hs. cbv beta in Hs. rewrite Ed in Hs. cbn [snd] in Hs.
-    eapply cext_trans; [apply same_cext; exact Hs|]. apply (C_fold (fun acc i => snd (call_later d (HAnswerFind i a) acc))). intros i w0. apply (C_call_later d (HAnswerFind i a) w0 I).
+    eapply cext_trans; [eapply same_cext; exact Hs|]. apply (C_fold (fun acc i => snd (call_later d (HAnswerFind i a) acc))). intros i w0. apply (C_call_later d (HAnswerFind i a) w0 I).
   - apply (C_fold (fun acc i => call_soon (HAnswerFind i a) acc)). intros i. apply C_call_soon.
 Qed.
 Lemma C_answer_find i a : C (answer_find i a).
@@ -258,8 +258,8 @@ Lemma C_stop_offer_branch t inst : C (fun w =>
   let w1 := set_can_answer inst false w in finish_task t (if t_cyclic (cfg w1) =? 0 then w1 else inst_send_offer inst None true w1)).
 Proof.
   intros w. cbv zeta. eapply cext_trans; [|apply C_finish_task].
-  destruct (t_cyclic (cfg (set_can_answer inst false w)) =? 0); [apply C_neutral, n_set_can_answer|].
-  eapply cext_trans; [apply C_neutral, n_set_can_answer|apply C_inst_send_offer].
+  destruct (t_cyclic (cfg (set_can_answer inst false w)) =? 0); [eapply C_neutral, n_set_can_answer|].
+  eapply cext_trans; [eapply C_neutral, n_set_can_answer|apply C_inst_send_offer].
 Qed.
 Lemma C_task_step t : C (task_step t).
 Proof.
@@ -270,20 +270,20 @@ Proof.
     + destruct (tk_must_cancel tk); [apply C_finish_task|]. destruct (watched w); [apply C_finish_task|].
       destruct (draw (t_init_min (cfg w)) (t_init_max (cfg w)) w) as [d w1] eqn:Ed.
       pose proof (n_draw (t_init_min (cfg w)) (t_init_max (cfg w)) w) as Hs. cbv beta in Hs. rewrite Ed in Hs. cbn [snd] in Hs.
-      eapply cext_trans; [apply same_cext; exact Hs|apply C_task_sleep].
+      eapply cext_trans; [eapply same_cext; exact Hs|apply C_task_sleep].
     + destruct p; destruct (tk_must_cancel tk); try apply C_finish_task;
-        (destruct (find_entries w) eqn:Ef; [apply C_finish_task|]; eapply cext_trans; [apply C_neutral, n_send_sd|apply C_find_next]).
+        (destruct (find_entries w) eqn:Ef; [apply C_finish_task|]; eapply cext_trans; [eapply C_neutral, n_send_sd|apply C_find_next]).
   - destruct (tk_pc tk) as [|p].
     + destruct (tk_must_cancel tk); [apply C_finish_task|].
       destruct (draw (t_init_min (cfg w)) (t_init_max (cfg w)) w) as [d w1] eqn:Ed.
       pose proof (n_draw (t_init_min (cfg w)) (t_init_max (cfg w)) w) as Hs. cbv beta in Hs. rewrite Ed in Hs. cbn [snd] in Hs.
-      eapply cext_trans; [apply same_cext; exact Hs|apply C_task_sleep].
+      eapply cext_trans; [eapply same_cext; exact Hs|apply C_task_sleep].
     + repeat match goal with |- context [match ?q with xI _ => _ | xO _ => _ | xH => _ end] => destruct q end;
       destruct (tk_must_cancel tk);
       first [ apply C_finish_task
             | apply (C_stop_offer_branch t inst)
             | eapply cext_trans; [|apply C_offer_next];
-              first [ eapply cext_trans; [apply C_inst_send_offer|apply C_neutral, n_set_can_answer] | apply C_inst_send_offer ]
+              first [ eapply cext_trans; [apply C_inst_send_offer|eapply C_neutral, n_set_can_answer] | apply C_inst_send_offer ]
             | eapply cext_trans; [apply C_inst_send_offer|apply C_task_sleep] ].
 Qed.
 Lemma C_sd_message_received h a mc : C (sd_message_received h a mc).
@@ -308,7 +308,7 @@ Proof.
   pose proof (n_set_sess_rx w a mc (sd_reboot h) (m_sess m)) as Hrx.
   destruct (check_received (sess w) a mc (sd_reboot h) (m_sess m)) as [rb s']. cbn [snd] in Hrx.
   assert (H2 : cext w (if rb then reboot_detected a (set_sess s' w) else set_sess s' w)).
-  { destruct rb; [eapply cext_trans; [apply same_cext; exact Hrx|apply C_reboot_detected]|apply same_cext; exact Hrx]. }
+  { destruct rb; [eapply cext_trans; [eapply same_cext; exact Hrx|apply C_reboot_detected]|eapply same_cext; exact Hrx]. }
   destruct (resolve_sd h); [eapply cext_trans; [exact H2|apply C_sd_message_received]|exact H2].
 Qed.
 Lemma C_datagram_received data a mc : C (datagram_received data a mc).
@@ -318,15 +318,15 @@ Proof.
   intros w. destruct c; cbn [exec_api].
   - unfold proto_start. eapply cext_trans; [apply C_subscriber_start|]. eapply cext_trans; [apply C_announcer_start|apply C_discovery_start].
   - unfold proto_stop. eapply cext_trans; [apply C_discovery_stop|]. eapply cext_trans; [apply C_announcer_stop|apply C_subscriber_stop].
-  - apply C_neutral, n_connection_lost.
-  - apply C_neutral, n_watch_service.
-  - apply C_neutral, n_stop_watch_service.
-  - apply C_neutral, n_watch_all_services.
-  - apply C_neutral, n_stop_watch_all_services.
-  - apply C_neutral, n_watch_service.
-  - apply C_neutral, n_stop_watch_service.
-  - apply C_neutral, n_subscribe_eventgroup.
-  - apply C_neutral, n_stop_subscribe_eventgroup.
+  - eapply C_neutral, n_connection_lost.
+  - eapply C_neutral, n_watch_service.
+  - eapply C_neutral, n_stop_watch_service.
+  - eapply C_neutral, n_watch_all_services.
+  - eapply C_neutral, n_stop_watch_all_services.
+  - eapply C_neutral, n_watch_service.
+  - eapply C_neutral, n_stop_watch_service.
+  - eapply C_neutral, n_subscribe_eventgroup.
+  - eapply C_neutral, n_stop_subscribe_eventgroup.
   - apply C_subscriber_start.
   - apply C_subscriber_stop.
   - apply C_discovery_start.
@@ -336,7 +336,7 @@ Proof.
   - apply C_announce_service.
   - apply C_stop_announce_service.
   - apply C_queue_send.
-  - apply C_neutral, n_send_sd.
+  - eapply C_neutral, n_send_sd.
   - destruct (get_inst i w); [apply C_put_inst|apply cext_refl].
 Qed.
 
@@ -346,7 +346,7 @@ Proof.
   intros w. destruct h; cbn [exec].
   - apply C_datagram_received. - apply C_exec_api. - apply C_subscriber_stop. - apply C_store_stop_all.
   - apply C_announcer_stop. - apply C_store_stop_all_for_address. - apply C_handle_offer.
-  - apply C_neutral, n_send_subscribe. - apply C_neutral, n_send_subscribe. - apply C_store_expired.
+  - eapply C_neutral, n_send_subscribe. - eapply C_neutral, n_send_subscribe. - apply C_store_expired.
   - apply C_collector_timeout. - apply C_answer_find. - apply C_task_step. - apply C_sleep_done.
 Qed.
 
